@@ -486,7 +486,7 @@ def mutate_once(rng, s):
         c2 = list(cells)
         t = c2[ci]
         if t.startswith("x"):
-            n = 1 if t == "x" else (int(t[1:]) if t[1:].isdigit() else 1)
+            n = 1 if t == "x" else (int(t[1:]) if (t[1:].isascii() and t[1:].isdigit() and len(t) < 6) else 1)
             if n >= 2 and rng.random() < 0.6:
                 a = rng.randint(1, n - 1)
                 c2[ci:ci + 1] = ["x" + (str(a) if a > 1 or rng.random() < 0.5 else ""),
